@@ -60,6 +60,16 @@ CHECKS = {
          "Value universe of 10 look-alike values incl. 0.0/-0.0/NaN; <=2-5 facts; memo oracle is the engine's own evaluate_typed "
          "(differential); conclusion index checked as a superset claim; TLC and the harness projection are trusted.",
          "TLA+ state-machine spec, TLC state-graph dump replayed on the real objects (transition cover + all short histories + walks + simulated behaviours)"),
+ "C07": ("model_checking",
+         "TLC checks on the bounded AdvancedAgenda model that get_next_activation returns the eligible activation of the focused "
+         "group maximal in (salience, earlier creation), and no-loop / activation-group exclusivity under the mark-after-return "
+         "discipline; the dumped graph is replayed transition by transition (plus short histories, walks, simulated 12-op "
+         "behaviours) on the real agenda. Termination: TLC proves <>return for the three guarded loops (and exhibits the lasso "
+         "without a guard); every engine x rule-kind case of that model is run on the real fire_all under a watchdog.",
+         "DESIGN.md §4 C07",
+         "6-rule table, <=3-5 pending activations, graph cut at 5-7 ops; default Salience strategy; termination cases are the "
+         "45 (engine, rule-kind subset) combinations with one fact; TLC and the harness projection are trusted.",
+         "TLA+ state-machine spec + liveness spec, TLC state-graph dump replayed on the real object; spec-enumerated termination cases run under a watchdog"),
 }
 
 NOT_YET = "check not built yet in this round (see DESIGN.md §9 build order); no claim is made"
